@@ -180,7 +180,7 @@ class URDFC(Contract):
                     else:
                         ax = {'x': [1.0, 0.0, 0.0], 'y': [0.0, 1.0, 0.0], 'z': [0.0, 0.0, 1.0], '-z': [0.0, 0.0, -1.0]}[j.axis]
                         out.append('    <axis xyz="%s"/>' % ' '.join(repr(x) for x in ax))
-                lo, hi = Val(g, 'lo%d' % i, lo=-3.0, hi=-0.5), Val(g, 'hi%d' % i, lo=0.5, hi=3.0)
+                lo, hi = Val(g, 'lo%d' % i, lo=-3.0, hi=0.0), Val(g, 'hi%d' % i, lo=0.0, hi=3.0)    # a limit of exactly 0 is a legitimate value
                 lim = (lo.v, hi.v)
                 out.append('    <limit lower="%s" upper="%s" effort="10" velocity="3"/>' % (lo.text, hi.text))
             out.append('  </joint>')
